@@ -22,7 +22,8 @@
 (*         `security:` absent | a list of alternatives (AND-sets of names;  *)
 (*         the empty alternative {} is the anonymous requirement)           *)
 (*  op   = [method, path, consumes : Seq(mt), produces : Seq(mt), sec,      *)
-(*          body : BOOLEAN (declares a body parameter)]                     *)
+(*          body : BOOLEAN (declares a body parameter),                     *)
+(*          nocontent : BOOLEAN (its success response is 204 No Content)]   *)
 (*  desc = [consumes, produces : Seq(mt), sec, defs : Seq(name), ops]       *)
 (*  reg  = [json : BOOLEAN  (JSON defaults kept),                           *)
 (*          consumers, producers : Seq(mt as passed to RegisterXxx),        *)
@@ -179,10 +180,15 @@ CredsOK(desc, o, alt) ==
   IF alts = <<>> THEN alt = 0
   ELSE alt \in DOMAIN alts \/ (alt = 0 /\ \E i \in DOMAIN alts : alts[i] = <<>>)
 
+(* an answer without body needs no producer: 204 No Content, or any answer to HEAD *)
+HEADm == <<72, 69, 65, 68>>
+NoBodyAnswer(o) == o.nocontent \/ ToUpper(o.method) = HEADm
+
+(* The Content-Type of a request names a media type case-insensitively ("Application/JSON"). *)
 WellFormedReq(desc, o, ctype, accept, alt) ==
-  /\ ProducesFor(desc, o) # {}
+  /\ ProducesFor(desc, o) # {} \/ NoBodyAnswer(o)
   /\ accept = <<>> \/ accept \in ProducesFor(desc, o)
-  /\ IF o.body THEN ctype \in ConsumesFor(desc, o) ELSE ctype = <<>>
+  /\ IF o.body THEN ToLower(ctype) \in ConsumesFor(desc, o) ELSE ctype = <<>>
   /\ CredsOK(desc, o, alt)
 
 (* buildAuthenticators: per alternative the scheme names that Authenticate    *)
@@ -201,7 +207,8 @@ ServeClasses(desc, reg, o, ctype, accept, alt) ==
                         \/ \A n \in Rng(RouteSchemes(alts, j)) : n \in have(j) /\ n \in creds
            authOK == alts = <<>> \/ \E j \in DOMAIN alts : admits(j)
        IN IF ~authOK THEN {"no-authenticator"}
-          ELSE IF ctype # <<>> /\ ctype \notin RouteConsumers(desc, reg, o) THEN {"no-consumer"}
+          ELSE IF ctype # <<>> /\ ToLower(ctype) \notin RouteConsumers(desc, reg, o) THEN {"no-consumer"}   \* runtime.ContentType lower-cases
+          ELSE IF NoBodyAnswer(o) THEN {"ok"}                                                             \* Respond returns before any producer
           ELSE LET formats == IF accept # <<>> THEN {accept} ELSE RouteProduces(desc, reg, o)   \* no Accept: the first offer
                    produced(f) == f \in RouteProducers(desc, reg, o) \/ (reg.json /\ JSONMime \in Producers(reg))
                IN {IF produced(f) THEN "ok" ELSE "no-producer" : f \in formats}
@@ -209,7 +216,8 @@ ServeClasses(desc, reg, o, ctype, accept, alt) ==
 ServingHolds(desc, reg) ==
   (CleanDesc(desc) /\ Validate(desc, reg).ok) =>
      \A o \in Rng(desc.ops) :
-       \A ctype \in {<<>>} \cup ConsumesFor(desc, o), accept \in {<<>>} \cup ProducesFor(desc, o),
+       \A ctype \in {<<>>} \cup ConsumesFor(desc, o) \cup {ToUpper(m) : m \in ConsumesFor(desc, o)},
+          accept \in {<<>>} \cup ProducesFor(desc, o),
           alt \in 0..Len(SecurityFor(desc, o)) :
           WellFormedReq(desc, o, ctype, accept, alt) => ServeClasses(desc, reg, o, ctype, accept, alt) = {"ok"}
 
